@@ -96,6 +96,19 @@ VARIANTS = {
         V('second caller waives the exactly-one', 'C14.R4', 'core/core.cpp', "return new var_item(*this, tp, ov_th.new_var(std::vector<var_value *>(allowed_vals.cbegin(), allowed_vals.cend())));", "return new var_item(*this, tp, ov_th.new_var(std::vector<var_value *>(allowed_vals.cbegin(), allowed_vals.cend()), false));"),
         V('var_flaw not exclusive', 'C14.R4', 'solver/flaws/var_flaw.cpp', "flaw(slv, std::move(causes), true), v_itm(v_itm)", "flaw(slv, std::move(causes), false), v_itm(v_itm)"),
     ],
+    'C15': [
+        V('lin - lin adds the constant', 'C15.R1', 'smt/arith/lin.cpp', "        res.known_term -= right.known_term;", "        res.known_term += right.known_term;"),
+        V('lin -= lin: new term keeps its sign', 'C15.R1', 'smt/arith/lin.cpp', "                vars.emplace(v, -c);", "                vars.emplace(v, c);"),
+        V('lin / rational forgets the constant', 'C15.R1', 'smt/arith/lin.cpp', "            c /= right;\n        res.known_term /= right;\n        return res;", "            c /= right;\n        return res;"),
+        V('rational * lin scales by the wrong thing', 'C15.R1', 'smt/arith/lin.cpp', "            c *= lhs;\n        res.known_term *= lhs;", "            c *= lhs;\n        res.known_term += lhs;"),
+        V('inf_rational -= inf_rational: infinitesimal added', 'C15.R1', 'smt/arith/inf_rational.h', "      rat -= rhs.rat;\n      inf -= rhs.inf;", "      rat -= rhs.rat;\n      inf += rhs.inf;"),
+        V('inf_rational * I forgets the infinitesimal part', 'C15.R1', 'smt/arith/inf_rational.h', "inline inf_rational operator*(const I &rhs) const noexcept { return inf_rational(rat * rhs, inf * rhs); };", "inline inf_rational operator*(const I &rhs) const noexcept { return inf_rational(rat * rhs, inf); };"),
+        V('inf_rational unary minus keeps the infinitesimal', 'C15.R1', 'smt/arith/inf_rational.h', "return inf_rational(-rat, -inf);", "return inf_rational(-rat, inf);"),
+        V('unary minus through at() again', 'C15.R4', 'smt/arith/lin.cpp', "            res.vars.emplace(v, -c);", "            res.vars.at(v) = -c;"),
+        V('rational >= no longer the dual of <=', 'C15.R5', 'smt/arith/rational.cpp', "bool rational::operator>=(const rational &rhs) const noexcept { return num * rhs.den >= den * rhs.num; }", "bool rational::operator>=(const rational &rhs) const noexcept { return num * rhs.den > den * rhs.num; }"),
+        V('rational / rational: sign not moved to the numerator', 'C15.R5', 'smt/arith/rational.cpp', "            rec.num = -rhs.den;\n            rec.den = -rhs.num;\n        }\n        return operator*(rec);", "            rec.num = rhs.den;\n            rec.den = -rhs.num;\n        }\n        return operator*(rec);"),
+        V('normalize keeps a negative denominator', 'C15.R5', 'smt/arith/rational.cpp', "            den = -den;\n            num = -num;", "            den = -den;"),
+    ],
     'C18': [
         V('noexcept added to a throwing lexer helper', 'C18.R1', 'riddle/riddle_lexer.h', "token *mk_integer_token(const std::string &str)\n", "token *mk_integer_token(const std::string &str) noexcept\n"),
         V('line comment loop without the end-of-input case', 'C18.R2', LEX, "                    case -1:\n                        return mk_token(EOF_ID);\n                    }\n            case '*': // in multi-line comment", "                    }\n            case '*': // in multi-line comment"),
